@@ -395,3 +395,65 @@ def anylayout_cells(info, prop, tier, verif, refine=()):
             obs[cid] = {'kind': 'lemma', 'props': [prop], 'text': 'AnyLayout::%s used by %s == %s for every key, modifier set and Ctrl mode' % (L, form, L)}
     out.append('} // mod verif_c17_cells')
     return '\n'.join(out), obs, {'variants': lays, 'cells_covered': 2 * len(lays)}
+
+
+def c03_cells(info, prop, tier, verif, refine=()):
+    """C03: every reference (key, level) cell of each layout, in every modifier state and mode selecting that level"""
+    known = {f['obligation']: f for f in load_findings(verif) if f['property'] == prop}
+    lays = real_layouts(info)
+    out, obs = [], {}
+    unconstrained = []
+    ncells = 0
+    lvlname = ['base', 'shift', 'altgr']
+    for L in lays:
+        p = os.path.join(verif, 'spec', 'layouts', L + '.json')
+        if not os.path.exists(p):
+            raise ExtractError('layout %s has no reference table spec/layouts/%s.json (new layout: add a reference table)' % (L, L))
+        ref = json.load(open(p, encoding='utf-8'))['keys']
+        check_keys(info, list(ref), 'spec/layouts/%s.json' % L)
+        unit = 'C03/%s' % L
+        percell = tier == 'thorough' or unit in refine
+        cells = []
+        for k, levels in ref.items():
+            for lvl in range(3):
+                v = levels[lvl]
+                cid = 'C03/%s/%s/%s' % (L, k, lvlname[lvl])
+                if v == '?':
+                    unconstrained.append(cid)
+                    continue
+                if lvl < 2:
+                    if v is None:
+                        continue
+                    cps = [ord(c) for c in v]
+                    cps3 = (cps + [cps[0]] * 3)[:3]
+                    cells.append((cid, 'c03_level(%s, KeyCode::%s, %d, 0x%X, 0x%X, 0x%X)' % (L, k, lvl, cps3[0], cps3[1], cps3[2]),
+                                  '%s %s level types %s in every modifier state and mode selecting it' % (k, lvlname[lvl], ' or '.join(repr(c) for c in v))))
+                else:
+                    if v is None:
+                        cells.append((cid, 'c03_no_altgr(%s, KeyCode::%s)' % (L, k), '%s has no distinct AltGr-level character (the standard has none)' % k))
+                    else:
+                        cps = [ord(c) for c in v]
+                        cps3 = (cps + [cps[0]] * 3)[:3]
+                        cells.append((cid, '(c03_no_altgr(%s, KeyCode::%s) || c03_level(%s, KeyCode::%s, 2, 0x%X, 0x%X, 0x%X))' % (L, k, L, k, cps3[0], cps3[1], cps3[2]),
+                                      '%s: a distinct AltGr-level character, if any, is %s' % (k, ' or '.join(repr(c) for c in v))))
+        kn = [c[0] for c in cells if c[0] in known]
+        mod = 'verif_c03_%s' % L
+        o = ['pub mod %s {' % mod, 'use vstd::prelude::*;', 'use crate::*;', 'use crate::verif_ldefs::*;', 'use crate::layouts::%s;' % L, '']
+        o.append('/*@LEMMA:%s@*/' % unit)
+        o.append('pub proof fn coarse()\n    ensures\n        %s,\n{\n}' % ',\n        '.join(c[1] for c in cells if c[0] not in known))
+        o.append('/*@ENDLEMMA@*/')
+        obs[unit] = {'kind': 'coarse', 'unit': unit, 'props': [prop], 'cells': 0 if percell else len(cells) - len(kn),
+                     'text': 'C03: all %d reference cells of layout %s' % (len(cells), L)}
+        ncells += len(cells)
+        for i, (cid, a, desc) in enumerate(cells):
+            if not (percell or cid in known):
+                continue
+            o.append('proof fn cell_%d() { assert(%s); } // CELL %s' % (i, a, cid))
+            obs[cid] = {'kind': 'cell', 'unit': unit, 'props': [prop], 'text': desc}
+            if cid in known and known[cid].get('observed_expr'):
+                o.append('proof fn cell_%d_observed() { assert(%s); } // CELL %s#observed' % (i, known[cid]['observed_expr'].replace('$L', L), cid))
+                obs[cid + '#observed'] = {'kind': 'cell', 'unit': unit, 'props': [prop], 'text': 'known finding still shows its recorded behaviour'}
+        o.append('} // mod %s' % mod)
+        out.append('\n'.join(o))
+    aux = {'cells_covered': ncells, 'layouts': lays, 'unconstrained_cells': unconstrained, 'reference': 'spec/layouts/*.json'}
+    return '\n'.join(out), obs, aux
